@@ -72,6 +72,10 @@ def generate(tier, rng):
                 cases.append(dict(stream="exact" if ex else "tolerance", coq=ex, cls="simple", grid=grid, gname=gname, extra=extra,
                                   driver=[rng.randint(0, 9) for _ in range(N)], outflow=[rng.randint(0, 5) for _ in range(N)],
                                   time_letter=("y" if rep else "t")))
+            # a stock near its steady state: a throughput of 2^53 per year against net additions of a few units (all exactly
+            # representable, as is every partial sum of the net additions): the stock is the cumulated NET inflow
+            cases.append(dict(stream="exact" if ex else "tolerance", coq=ex, cls="simple", grid=grid, gname=gname, extra=extra,
+                              driver=[2 ** 53 + 2 * rng.randint(0, 9) for _ in range(N)], outflow=[2 ** 53 + 2 * rng.randint(0, 5) for _ in range(N)]))
             for lt in lifetimes(rng, grid, extra, k):
                 k += 1
                 drv = [rng.randint(0, 8) for _ in range(N)]
@@ -124,9 +128,15 @@ def run_impl(case):
     # perturbation probes on the computed stock
     probes = {}
     base = st.stock.values.copy()
-    for name, delta in (("big+", 5.0), ("big-", -5.0), ("small", 1e-4)):
+    # (the threshold is on the absolute imbalance summed over time, per label: a change of the stock at the FIRST step by d shows up
+    #  as +d there and -d at the next step, 2|d| in all — "spread" (0.75) is beyond the threshold of 1, "spread_ok" (0.25) is not)
+    for name, delta in (("big+", 5.0), ("big-", -5.0), ("small", 1e-4), ("spread", 0.75), ("spread_ok", 0.25)):
         st.stock.values[...] = base
         idx = tuple(s // 2 for s in base.shape)
+        if name.startswith("spread"):
+            if st.stock.values.dtype.kind != "f":
+                continue          # (a stock held as an integer array cannot be changed by a fraction)
+            idx = (0,) + idx[1:]
         st.stock.values[idx] += delta
         try:
             with contextlib.redirect_stdout(io.StringIO()):
@@ -183,6 +193,10 @@ def oracle(case, obs):
         return f"check_stock_balance accepts a stock perturbed by 5: {p}"
     if p["small"] != "ok":
         return f"check_stock_balance rejects a stock perturbed by 1e-4: {p}"
+    if exact and p.get("spread") == "ok":
+        return f"check_stock_balance accepts a stock whose first entry was changed by 0.75 (imbalance +0.75 and -0.75, 1.5 summed over time): {p}"
+    if exact and p.get("spread_ok", "ok") != "ok":
+        return f"check_stock_balance rejects a stock whose first entry was changed by 0.25 (0.5 summed over time): {p}"
     return None
 
 
